@@ -364,7 +364,78 @@ def drive_history(ctx: Ctx) -> None:
     run_machine(ctx, "history", HintHistory, n_examples, step_count=ctx.pick(12, 25))
 
 
+# ------------------------------------------------------------------------------------------------
+# dense runs: events of every kind on EVERY tick of a window around / behind tempo changes
+# ------------------------------------------------------------------------------------------------
+@st.composite
+def _dense_cases(draw, ctx):
+    if draw(st.integers(0, 2)) > 0:
+        # "musical" maps: round tempos at the usual resolutions.  There the exact time of many ticks lies exactly
+        # on a half microsecond (120 BPM at 192 ticks per beat: every tick = 3 mod 6), so that two computations
+        # of one time that differ in nothing but the order of their floating-point operations round differently
+        res = draw(st.sampled_from([192, 192, 480, 96, 960, 100, 120, 384]))
+        vals = st.sampled_from([120000, 104000, 96000, 140000, 90000, 150000, 200000, 60000, 180000, 240000,
+                                128000, 125000, 100000, 93750, 75000, 160000, 112000, 108000])
+        tempo = [[0, draw(vals)]]
+        t = 0
+        for _ in range(draw(st.integers(0, 3))):
+            t += draw(st.integers(1, 64)) * max(1, res // 4)
+            tempo.append([t, draw(vals)])
+        tmap = {"res": res, "tempo": tempo}
+    else:
+        tmap = draw(G.tempo_maps(max_segments=5, min_segments=1, allow_big=False))
+    tm = TempoModel(tmap["res"], tmap["tempo"])
+    max_tick = max(tm.max_tick_within(G.TIME_LIMIT_S) - 1, tm.ticks[-1])
+    width = draw(st.sampled_from([60, 150, 150, ctx.pick(300, 1200)]))
+    anchors = sorted(set(tm.ticks[-3:]) | {tm.ticks[0]})
+    start = draw(st.sampled_from(anchors))
+    lo = max(0, start - draw(st.sampled_from([0, 3, 20])))
+    hi = min(max_tick, lo + width)
+    step = draw(st.sampled_from([1, 1, 1, 2, 3]))
+    return {"res": tmap["res"], "tempo": tmap["tempo"], "lo": lo, "hi": hi, "step": step,
+            "sus": draw(st.sampled_from([0, 0, 1, 5]))}
+
+
+def strat_dense(ctx: Ctx):
+    return _dense_cases(ctx)
+
+
+def check_dense(ctx: Ctx, case) -> None:
+    """A sorted chart with a text, a section and a lyric event, a note, a phrase and a track event on every
+    ``step``-th tick of [lo, hi] (time signatures on every seventh): every stored time equals the un-hinted query.
+    Consecutive events of one kind, one tick apart, behind the last tempo change are what a per-kind shortcut in
+    the event builders would get wrong for a few tick distances only."""
+    lo, hi, step = case["lo"], case["hi"], case["step"]
+    ticks = list(range(lo, hi + 1, step))
+    sync = [[0, "TS", 4]] + [[t, "B", n] for t, n in case["tempo"]] + \
+           [[t, "TS", 3 + (t % 5), 2] for t in ticks[::7] if t > 0]
+    order = {"TS": 0, "B": 1}
+    sync.sort(key=lambda it: (it[0], order[it[1]]))
+    events = []
+    items = []
+    for i, t in enumerate(ticks):
+        events += [[t, f"t{i}"], [t, f"section s{i}"], [t, f"lyric l{i}"]]
+        items += [[t, "N", i % 5, min(case["sus"], max(0, hi - t))], [t, "S", 2, 1], [t, "E", f"w{i}"]]
+    spec = {"res": case["res"], "sync": sync, "events": events, "tracks": {"ExpertSingle": items}}
+    rc = dict(case)
+    try:
+        chart = L.parse(S.render(spec))
+    except Exception as e:  # noqa: BLE001
+        ctx.fail("sorted-parses", f"sorted well-formed chart rejected: {type(e).__name__}: {e}", rc)
+        return
+    tm = TempoModel(case["res"], case["tempo"])
+    n = _verify_chart(ctx, chart, rc, tm)
+    behind_last = sum(1 for t in ticks if t >= tm.ticks[-1])
+    ctx.evaluations += n - 1
+    ctx.note([case["res"], case["tempo"], lo, hi, step], nontrivial=len(ticks) >= 30,
+             classes=["dense_behind_last_change" if behind_last >= 20 else "dense_across_changes",
+                      f"dense_step_{step}"],
+             sample={"res": case["res"], "tempo": case["tempo"][:4], "window": [lo, hi], "step": step, "events": n})
+
+
 PARTS: list[Part] = [
+    hyp_part("dense", strat_dense, check_dense, {"quick": 60, "thorough": 1200},
+             {"quick": 6, "thorough": 16}),
     hyp_part("hints", strat_hints, check_hints, {"quick": 250, "thorough": 4000},
              {"quick": 4, "thorough": 16}),
     hyp_part("orders", strat_orders, check_orders, {"quick": 450, "thorough": 5000},
